@@ -112,6 +112,11 @@ def enc_element(kind, shape, v):
         else:
             raise AssertionError(shape)
         return bytes([shape, len(body)]) + body
+    if kind == 'flowspec' and shape[0] == 'long':
+        # a rule of 240 octets or more: two-octet length 0xfnnn (RFC 5575 section 4)
+        assume(0 <= v[0] < 256)
+        rule = bytes([5]) + b''.join(bytes([0x11, 3, 232 + (i % 20)]) for i in range(shape[1] - 1)) + bytes([0x91, 3, v[0]])
+        return bytes([0xf0 + len(rule) // 256, len(rule) % 256]) + rule
     if kind == 'flowspec':
         if shape[0] == 'prefix':
             o = octs(v[:4])
@@ -298,7 +303,7 @@ def obligations(tier, seed):
         'prefixsid': [(1, 7), (3, 8), (9, 2), (5, 0)],
         'evpn': [1, 3, 4, 6],
         'capability': ['mp', 'addpath', 'addpath2', 'rr', 'as4', 'unknown'],
-        'flowspec': [('prefix', 24), ('prefix', 0), ('prefix', 9), ('op', 3), ('op', 5)],
+        'flowspec': [('prefix', 24), ('prefix', 0), ('prefix', 9), ('op', 3), ('op', 5), ('long', 80)],
         'prefix6': [{'plen': pl, 'addr': ad} for pl in ([0, 1, 8, 9, 60, 64, 127, 128] if quick else
                                                        [0, 1, 7, 8, 9, 15, 16, 17, 32, 48, 59, 60, 61, 63, 64, 65, 96, 120, 127, 128])
                     for ad in ('20010db8000100020003000400050006',)],
@@ -356,6 +361,10 @@ def obligations(tier, seed):
             for pm in itertools.permutations(g):
                 out.append(ob('C15/attr-order/pro=%d/%s' % (pro, '-'.join(pm)), 'ob_attr_order_x',
                               {'attrs': list(pm), 'base': g, 'pro': pro}, covers=['decoded'], cap=500))
+    g = ['as4_aggregator', 'aspath', 'aggregator']
+    for pm in itertools.permutations(g):
+        out.append(ob('C15/attr-order/asn4=False/%s' % '-'.join(pm), 'ob_attr_order', {'attrs': list(pm), 'base': g, 'asn4': False},
+                      covers=['decoded'], cap=150 if quick else 500))
     for asn4 in (False, True):
         g = ['nexthop', 'med', 'as4_path'] if asn4 else ['as4_path', 'aspath', 'med']
         for pm in itertools.permutations(g):
